@@ -23,7 +23,7 @@ type envState struct {
 	hookKind       int
 	hookStartFails bool
 	timerFires     int
-	lastMarshalled Value
+	marshalled     map[*Obj]Iface
 	yamlDocs       map[string]interface{} // resolved path -> Iface document (nil = malformed)
 }
 
